@@ -116,7 +116,11 @@ fn run_case(c: &Case, exclude_known: bool, st: &mut Stats) -> Result<Option<(Vec
     // was the device's lock held while its status register was polled last?  The known finding is a lock that is
     // free at the ready poll and taken just before the data access; a lock that was already held at the poll makes
     // a correct device answer "not ready", so holding it through the data access is a legitimate schedule.
+    // The finding is also tied to the window the OS leaves between the ready poll and the data access (GETC: 2
+    // instructions, PUTC: 4): a data access whose last poll is older than that is not the listed finding.
     let mut held_at_last_poll = [false, false];
+    let mut since_poll = [usize::MAX, usize::MAX];
+    const WINDOW: usize = 4;
     for step in 0..60_000usize {
         let mut lock_k = false;
         let mut lock_d = false;
@@ -128,11 +132,11 @@ fn run_case(c: &Case, exclude_known: bool, st: &mut Stats) -> Result<Option<(Vec
         }
         if exclude_known {
             match at_data_access(&rig) {
-                Some(0) if lock_k && !held_at_last_poll[0] => {
+                Some(0) if lock_k && !held_at_last_poll[0] && since_poll[0] <= WINDOW => {
                     lock_k = false;
                     st.excluded_known += 1;
                 }
-                Some(1) if lock_d && !held_at_last_poll[1] => {
+                Some(1) if lock_d && !held_at_last_poll[1] && since_poll[1] <= WINDOW => {
                     lock_d = false;
                     st.excluded_known += 1;
                 }
@@ -141,9 +145,18 @@ fn run_case(c: &Case, exclude_known: bool, st: &mut Stats) -> Result<Option<(Vec
                 _ => {}
             }
         }
+        for d in 0..2 {
+            since_poll[d] = since_poll[d].saturating_add(1);
+        }
         match at_status_poll(&rig) {
-            Some(0) => held_at_last_poll[0] = lock_k,
-            Some(1) => held_at_last_poll[1] = lock_d,
+            Some(0) => {
+                held_at_last_poll[0] = lock_k;
+                since_poll[0] = 0;
+            }
+            Some(1) => {
+                held_at_last_poll[1] = lock_d;
+                since_poll[1] = 0;
+            }
             _ => {}
         }
         let io_step = {
